@@ -71,7 +71,7 @@ func TestReplay(t *testing.T) {
 		}
 	}
 	rep := &Report{Engine: "clnt-replay", Stats: map[string]any{}}
-	StartWatchdog(40 * time.Second)
+	StartWatchdog(15 * time.Second)
 	aborted := 0
 	drift, steps, hung, pending := 0, 0, 0, 0
 	for _, b := range bs {
@@ -148,7 +148,7 @@ func TestRandom(t *testing.T) {
 		}
 	}
 	rep := &Report{Engine: "clnt-random", Stats: map[string]any{}}
-	StartWatchdog(40 * time.Second)
+	StartWatchdog(15 * time.Second)
 	aborted := 0
 	steps, hung, failedRuns := 0, 0, 0
 	shapes := map[string]bool{}
